@@ -1373,10 +1373,12 @@ class Compiler:
         elif isinstance(node, ObjectExpression):
             for prop in node.properties:
                 # Key
-                if isinstance(prop.key, Identifier):
+                if isinstance(prop.key, Identifier) and not prop.computed:
                     idx = self._add_constant(prop.key.name)
                     self._emit(OpCode.LOAD_CONST, idx)
                 else:
+                    # a literal key, or a computed one: {[k]: v} names the
+                    # property after the value of k
                     self._compile_expression(prop.key)
                 # Kind (for getters/setters)
                 kind_idx = self._add_constant(prop.kind)
